@@ -178,6 +178,22 @@ ReturnCore(q, err, vals, checkVersion) ==
              ELSE UNCHANGED <<holder, transit, dc>>
   /\ UNCHANGED <<pmin, pmax, free, cur, cleared, inst, vers, done, pend, model, upq, fin>>
 
+\* hook "clear": request q has dropped the data it injected into instance i.  Only the holder of an instance may
+\* touch its data: once q has handed i back (hook "put") the instance can be anybody's.
+ClearCore(q, i) ==
+  /\ q \in DOMAIN rq /\ rq[q].st = "holding" /\ rq[q].inst = i /\ holder[i] = q
+  /\ dc' = [dc EXCEPT ![i] = [k \in (DOMAIN @) \ {kk \in DOMAIN @ : @[kk] = q} |-> @[k]]]
+  /\ UNCHANGED <<pmin, pmax, free, holder, transit, rq, cur, cleared, inst, vers, done, pend, model, upq, fin>>
+
+\* hook "put": request q hands instance i back; the push into the list follows in a goroutine of its own.  This is
+\* the release: from here on q does nothing more to the instance.
+PutCore(q, i) ==
+  /\ q \in DOMAIN rq /\ rq[q].st = "holding" /\ rq[q].inst = i /\ holder[i] = q
+  /\ LET z == Release(q, holder, transit, dc) IN
+       holder' = z.holder /\ transit' = z.transit /\ dc' = z.dc
+  /\ rq' = [rq EXCEPT ![q].st = "pushed"]
+  /\ UNCHANGED <<pmin, pmax, free, cur, cleared, inst, vers, done, pend, model, upq, fin>>
+
 \* hook "push": instance i is back in its list.  The push goroutine may log
 \* before the driver logs the return of the request, so a push of an instance
 \* still held performs the release as well.
